@@ -1,5 +1,5 @@
 """what MANIFEST.json claims, per property (kept next to the code that implements it)"""
-NOTES = ('Technique family: static analysis only. Every check recompiles /repo\'s working tree to LLVM IR (clang-14 -O0, then opt-14 mem2reg/instsimplify/early-cse/jump-threading/simplifycfg; functions the rules do not know by name are inlined first, '
+NOTES = ('Technique family: static analysis only. Every check recompiles /repo\'s working tree to LLVM IR (clang-14 -O0, then opt-14 sroa/mem2reg/instsimplify/early-cse/jump-threading/simplifycfg; functions the rules do not know by name are inlined first, '
          'the repo\'s own flags, all 22 compile commands of the four libraries) in a scratch directory and decides structural clauses '
          'of the property with repository-specific rules; exit 0 pass, 1 violation (VIOLATION line + report file), 2 analysis broken '
          '(anchor vanished / undecidable form / instance count below the confirmed minimum). Clauses that quantify over runtime values '
@@ -200,7 +200,22 @@ ADDED3 = {
  'C19': 'Third wave: decode / reconstruct hand their own erasure list to every helper (R19g); inversion failure followed by value (R19a).',
  'C20': 'Third wave: R10b and R03c shared.',
 }
-for _d in (ADDED, ADDED3):
+ADDED4 = {
+ 'C01': 'Fourth wave: the alignment test is recognised by what it computes ((address & 15) == 0 on a conditional branch), not by the helper it calls; R20c/R20d shared.',
+ 'C04': 'Fourth wave: the GF multiplication returns a constant only where an operand is 0, and then 0 (R04g).',
+ 'C05': 'Fourth wave: kernel tiling (R05g) is decided for the portable build flavour in the quick tier as well.',
+ 'C06': 'Fourth wave: a bitmap of fragment indexes is never tested with the position in a -1 terminated list, and the taint follows the bitmap into helpers that receive it (R06f); '
+        'the value the single-data shortcut reports for "no local parity" is the one the fallback test compares with (R06j).',
+ 'C07': 'Fourth wave: every successful path of add_fragment_metadata stores the instance checksum type, and computes the payload checksum whenever the type is CRC32 (R10f).',
+ 'C10': 'Fourth wave: R10f (see C07).',
+ 'C13': 'Fourth wave: an out-parameter is written before any path reads it (R13g).',
+ 'C14': 'Fourth wave: every entry point that takes a descriptor looks it up on every path that returns a non-negative value (R14k).',
+ 'C16': 'Fourth wave: encode_cleanup walks the parity array m times and the data array k times (R16c over trip counts).',
+ 'C18': 'Fourth wave: no call that transitively acquires the registry lock is made while it is held (R18g).',
+ 'C19': 'Fourth wave: R19c/R19f/R19g do not depend on helper names or signatures (the row combination is recognised by the call through gf_mul; bitmaps may be parameters).',
+ 'C20': 'Fourth wave: the loop that collects checksum-valid fragments visits all num_fragments entries (R20c) and its scratch list is sized from num_fragments (R20d).',
+}
+for _d in (ADDED, ADDED3, ADDED4):
     for _k, _v in _d.items():
         CHECKS[_k]['text'] += ' ' + _v
 
